@@ -5,6 +5,8 @@ Model driver for C12. Line protocol (fields separated by one space, lists by ','
   write <hash32> <uuid:0|1,...>        -- request arrival order of a write refused everywhere
   bal   <hash32> <uuid,...>            -- keep-balance's server ranking for the block
   roots <locator> <uuid=root,...> <gwuuid=root,...>   -- getSortedRoots
+  balpair <hashA> <hashB> <uuid,...> [rep]  -- rankings of two blocks whose balanceBlock calls overlap
+  balsweep <seed32> <uuid,...> <n>:<d>      -- n blocks (hash i = md5(seed:i)) in one ComputeChangeSets
 Output: the order as tie groups separated by '|', members of a group sorted and joined by ','
 (a group has > 1 member only when two services have the same weight, in which case Go's order
 inside the group is unspecified). `roots` prints hint roots joined by ',' then ';' then groups.
@@ -54,6 +56,17 @@ def rootsOne (loc locals gws : String) : String :=
     hs ++ ";" ++ showGroups (groupsOf hash (ls.map (·.1)))
   | _, _ => "bad-op"
 
+def sweepDigits : Array Char := "0123456789abcdefghijklmnopqrstuvwxyz".toList.toArray
+
+/-- `balsweep`: block `i` of the sweep has the hash md5(seed:i); keep-balance wants it on the first
+`d` servers of its ranking (`wantedServers`), whatever else is balanced at the same time
+(`C12_sweep_any_schedule`). Printed per block as the sorted indices of those servers. -/
+def sweepOne (seed : String) (uuids : List String) (d i : Nat) : String :=
+  let hash := MD5.hexStr (seed ++ ":" ++ toString i)
+  let w := fun (u : String) => weight md5Nat hash.toList u.toList
+  let idx := (wantedServers d (probeOrder w uuids)).map (fun u => uuids.idxOf u)
+  String.ofList ((idx.toArray.qsort (· < ·)).toList.map (fun j => sweepDigits.getD j '?'))
+
 def step (line : String) : String :=
   match fields line with
   | [op, hash, us] =>
@@ -80,6 +93,21 @@ def step (line : String) : String :=
   | ["bal", hash, us, _rep] =>
     -- per-mount replication only changes how keep-balance's ranking is observed, not the ranking
     if hash.length != 32 then "bad-op" else showGroups (groupsOf hash (splitList us))
+  | ["balpair", ha, hb, us] | ["balpair", ha, hb, us, _] =>
+    -- two blocks balanced on one Balancer with overlapping calls: each ranking is that of the block
+    -- alone (the ranking is local to a balanceBlock call, C12_sweep_any_schedule)
+    if ha.length != 32 || hb.length != 32 then "bad-op" else
+    showGroups (groupsOf ha (splitList us)) ++ " / " ++ showGroups (groupsOf hb (splitList us))
+  | ["balsweep", seed, us, nd] =>
+    match nd.splitOn ":" with
+    | [n, d] =>
+      match n.toNat?, d.toNat? with
+      | some n, some d =>
+        let uuids := splitList us
+        if seed.length != 32 || n == 0 || d == 0 || d > uuids.length || uuids.length > 36 then "bad-op" else
+        ",".intercalate ((List.range n).map (sweepOne seed uuids d))
+      | _, _ => "bad-op"
+    | _ => "bad-op"
   | ["rootseq", locs, locals, gws] =>
     -- several getSortedRoots calls on ONE client: the model is stateless (the order depends on
     -- nothing but the service set and the locator), so every call is answered as if it were the first
